@@ -415,7 +415,7 @@ class Array(metaclass=MetaArray):
                 for idx in iter_index(shape, order):
                     extra[idx] = cls._itemtype._inspect_args(items_of[idx])
                     offsets[idx] = offset
-                    offset += extra[idx].size
+                    offset += _to_slot_size(extra[idx].size)
                 size = _to_slot_size(offset)
                 info.offsets = offsets
                 info.extra = extra
